@@ -1,0 +1,17 @@
+//go:build verif
+
+package query
+
+import (
+	"strconv"
+
+	"github.com/mithrandie/csvq/lib/file"
+)
+
+func verifPoint(point string, path string) {
+	file.VerifPoint(point, path)
+}
+
+func verifPointN(point string, n int) {
+	file.VerifPoint(point, strconv.Itoa(n))
+}
